@@ -4,14 +4,16 @@
 // precompile argument decoding never panic".
 //
 // Everything here drives the REAL fx-core code (full app on MemDB) under recover:
-//   (i)   every registered /fx.* (and /ethermint.*) message type: wire-level instances -> ValidateBasic, signers
-//   (ii)  every method of the staking and crosschain precompiles: call data through the real EVM and
-//         directly through ParseMethodArgs(+Validate)
-//   (iii) strings into ParseFxTarget / ParseAddress / ValidateExternalAddr (all chains) (+ the conversions
-//         the code applies after validation)
-//   (iv)  hostile transactions through the real CheckTx / FinalizeBlock (ante handler, message handlers)
-//   (v)   model correspondence: abstract inputs of coq/model/M_Validate.v concretised to wire bytes, the real
-//         verdict (ok/err/panic) written to Cases_C20v.v and compared with the model inside coqc.
+//
+//	(i)   every registered /fx.* (and /ethermint.*) message type: wire-level instances -> ValidateBasic, signers
+//	(ii)  every method of the staking and crosschain precompiles: call data through the real EVM and
+//	      directly through ParseMethodArgs(+Validate)
+//	(iii) strings into ParseFxTarget / ParseAddress / ValidateExternalAddr (all chains) (+ the conversions
+//	      the code applies after validation)
+//	(iv)  hostile transactions through the real CheckTx / FinalizeBlock (ante handler, message handlers)
+//	(v)   model correspondence: abstract inputs of coq/model/M_Validate.v concretised to wire bytes, the real
+//	      verdict (ok/err/panic) written to Cases_C20v.v and compared with the model inside coqc.
+//
 // Monitor: any panic reachable from input the node accepts from the network is a failure.
 package main
 
@@ -39,6 +41,8 @@ type harness struct {
 	scale int // 1 quick, bigger for thorough/search
 	sigs  map[string]int
 	only  map[string]bool
+
+	forceLen map[string]int // precompile stage: forced lengths of array arguments (by ABI input name)
 }
 
 // fail registers a monitor failure; one Failure per signature (the first replay is kept), occurrences counted.
